@@ -2,7 +2,10 @@
     every field, every vector space, every step term (hence every integrator of
     time_integration.py with arbitrary coefficient lists), every filter stack
     and every step count (induction). *)
-From Dino Require Import Base.Ops Base.Sums Gen.DerivExprs Model.Deriv Thm.Deriv Model.Invariants.
+From Dino Require Import Base.Ops Base.Sums Base.Ord Base.Inst Model.Filters Thm.Filters Model.Sigma
+     Gen.DerivExprs Gen.Tableaux Model.Deriv Thm.Deriv Model.Invariants.
+From Dino Require Model.Integrators.
+From Coq Require Import Qcanon.
 Local Open Scope F_scope.
 
 (** * generic facts about filters and iteration (any state type) *)
@@ -397,6 +400,19 @@ Section Modal.
     - apply clip_top. now apply Nat.leb_le.
   Qed.
 
+  (** the same when the pre-clip value is only known to respect the mask for
+      inputs that are themselves in the pattern (shallow water: the pressure term
+      is linear in the modal input) *)
+  Theorem explicit_into_Supp_rel (pre : stack -> stack) :
+    (forall x, Supp x -> forall k i l, (i < R)%nat -> (l < C)%nat -> mask fast M L i l = false -> pre x k i l = 0) ->
+    forall x, Supp x -> Supp (explicit_model L C pre x).
+  Proof.
+    intros Hpre x Hx k i l Hi Hl Hm. unfold explicit_model, clip_stack.
+    unfold must_vanish in Hm. apply Bool.orb_true_iff in Hm. destruct Hm as [Hm|Hm].
+    - apply clip_zero. apply Hpre; auto. now apply Bool.negb_true_iff.
+    - apply clip_top. now apply Nat.leb_le.
+  Qed.
+
   (** the top wavenumber alone needs no hypothesis at all *)
   Theorem explicit_top_zero (pre : stack -> stack) x k i l :
     (L - 1 <= l)%nat -> explicit_model L C pre x k i l = 0.
@@ -415,7 +431,7 @@ Section Modal.
   (** trajectories of any integrator term with any stack of such filters stay in the pattern *)
   Theorem modal_trajectory_in_Supp (pre : stack -> stack) N AG (AI : F -> nat -> nat -> nat -> nat -> F)
           (t : stepterm F) (scalings : list (nat -> nat -> F)) :
-    (forall x k i l, (i < R)%nat -> (l < C)%nat -> mask fast M L i l = false -> pre x k i l = 0) ->
+    (forall x, Supp x -> forall k i l, (i < R)%nat -> (l < C)%nat -> mask fast M L i l = false -> pre x k i l = 0) ->
     forall k u, Supp u ->
       Supp (iter k (with_filters
                       (step_of (vo := StackSp) (explicit_model L C pre) (diagop N AG) (fun eta => diagop N (AI eta)) t)
@@ -425,7 +441,7 @@ Section Modal.
     - exact Supp_zero.
     - exact Supp_add.
     - exact Supp_scale.
-    - intros x _. now apply explicit_into_Supp.
+    - intros x Hx. now apply explicit_into_Supp_rel.
     - intros x. apply diagop_preserves_Supp.
     - intros eta x. apply diagop_preserves_Supp.
     - intros f Hf u un _ Hun. apply in_map_iff in Hf. destruct Hf as (s & <- & _).
@@ -570,3 +586,160 @@ Section Thickness.
       intros f Hin v vn Hv Hvn. unfold S0. destruct (Hf f Hin v vn) as [A _]. now rewrite A.
   Qed.
 End Thickness.
+
+(** * uniform tracer *)
+Section Tracer.
+  Context {F : Type} {o : Ops F} {Fc : FieldC o}.
+  Add Field FFu : (field_c : FieldTh o).
+
+  (** vertical advection of a level-constant field is exactly zero: every K,
+      every level set, every vertical velocity (default zero boundary values of
+      the derivative) *)
+  Theorem cva_constant K (b w : nat -> F) (c wt wb : F) n :
+    centered_vertical_advection K b w (fun _ => c) wt wb 0 0 n = 0.
+  Proof.
+    unfold centered_vertical_advection.
+    assert (Z : forall j, pad_tb K 0 0 (centered_difference b (fun _ => c)) j = 0).
+    { intros j. unfold pad_tb, centered_difference.
+      destruct (Nat.eqb j 0); [reflexivity|]. destruct (Nat.ltb j K); [ring|reflexivity]. }
+    rewrite !Z. ring.
+  Qed.
+
+  (** horizontal part, one coefficient: tendency = to_modal(q*div + vertical) - H(u q, v q)
+      with q = c constant, to_modal and H linear, under [H_uv_roundtrip]:
+      H(u, v) = to_modal(div) (the velocity reconstructed from vorticity and
+      divergence has the divergence it was built from) *)
+  Theorem uniform_tracer_horizontal {N : Type} (scaleN : F -> N -> N) (addN : N -> N -> N) (zeroN : N)
+          (to_modal : N -> F) (Hop : N -> N -> F) (c : F) (divn un vn vert : N) :
+    (forall k x, to_modal (scaleN k x) = k * to_modal x) ->
+    (forall x y, to_modal (addN x y) = to_modal x + to_modal y) ->
+    (forall k x y, Hop (scaleN k x) (scaleN k y) = k * Hop x y) ->
+    to_modal vert = 0 ->
+    Hop un vn = to_modal divn ->
+    to_modal (addN (scaleN c divn) vert) + - Hop (scaleN c un) (scaleN c vn) = 0.
+  Proof. intros H1 H2 H3 Hv Hrt. rewrite H2, H1, H3, Hv, Hrt. ring. Qed.
+End Tracer.
+
+(** * filters and scalar leaves (shape rule of filtering._preserves_shape) *)
+Section ScalarLeaf.
+  Context {F : Type} {o : Ops F} {Fc : FieldC o}.
+
+  Theorem filter_leaves_scalar (sc : Filters.arr) (t : F) :
+    fst sc <> [] -> rescale sc (scalar_arr t) = scalar_arr t.
+  Proof.
+    intros Hs. apply rescale_false. cbn.
+    destruct (preserves_shape [] (fst sc)) eqn:E; [|reflexivity].
+    apply preserves_shape_spec in E. destruct E as (pre & suf & E1 & E2).
+    symmetry in E1. apply app_eq_nil in E1. destruct E1 as [-> ->].
+    inversion E2. congruence.
+  Qed.
+End ScalarLeaf.
+
+(** * the concrete coefficient tables (regenerated from the source): consistency sums *)
+Definition qcl (l : list Q) : list Qc := map Q2Qc l.
+Definition qcll (l : list (list Q)) : list (list Qc) := map qcl l.
+
+Lemma rk3_consistency : ls_consistency (qcl rk3_alphas) (qcl rk3_betas) (qcl rk3_gammas) = 1.
+Proof. apply Qc_is_canon. vm_compute. reflexivity. Qed.
+
+Lemma rk4_consistency :
+  fle (fabs (ls_consistency (qcl rk4_alphas) (qcl rk4_betas) (qcl rk4_gammas) - 1))
+      (Q2Qc (1 # 1000000000000)).
+Proof. vm_compute. reflexivity. Qed.
+
+Lemma sil3_consistency : imex_consistency (qcll sil3_a_ex) (qcll sil3_a_im) (qcl sil3_b_ex) = 1.
+Proof. apply Qc_is_canon. vm_compute. reflexivity. Qed.
+
+Lemma sil3_term_defined (dt : Qc) :
+  exists t, imex_term dt (qcll sil3_a_ex) (qcll sil3_a_im) (qcl sil3_b_ex) (qcl sil3_b_im) = Some t.
+Proof.
+  unfold imex_term.
+  destruct (imex_stage_terms dt (qcl sil3_b_ex) (qcl sil3_b_im) 1 (qcll sil3_a_ex) (qcll sil3_a_im)
+              [Some (TF U)] [Some (TG U)]) as [[fs gs]|] eqn:E.
+  2:{ vm_compute in E. discriminate E. }
+  revert E. vm_compute. intros E. injection E as <- <-. eexists. reflexivity.
+Qed.
+
+(** * the terms are the step functions of Model/Integrators.v *)
+Section Bridge.
+  Context {F : Type} {o : Ops F} {V : Type} {vo : VSp F V}.
+  Context (Fx G : V -> V) (Ginv : F -> V -> V).
+  Definition toVOps : Integrators.VOps F V :=
+    {| Integrators.vzero := vz; Integrators.vadd := va; Integrators.vscal := vs |}.
+  Let Gi := fun x eta => Ginv eta x.
+
+  Lemma bridge_euler dt u :
+    step_of Fx G Ginv (euler_term dt) u = Integrators.euler_step (vo := toVOps) Fx Gi dt u.
+  Proof. reflexivity. Qed.
+
+  Lemma bridge_cn_rk2 dt u :
+    step_of Fx G Ginv (cn_rk2_term dt) u = Integrators.cn_rk2_step (vo := toVOps) Fx G Gi dt u.
+  Proof. reflexivity. Qed.
+
+  Lemma bridge_ls_loop dt al be ga h u env :
+    eval Fx G Ginv (ls_term dt al be ga h u) env
+    = Integrators.ls_loop (vo := toVOps) Fx G Gi dt al be ga (eval Fx G Ginv h env) (eval Fx G Ginv u env).
+  Proof.
+    revert al ga h u. induction be as [|b be IH]; intros al ga h u; [reflexivity|].
+    destruct ga as [|g ga]; [reflexivity|].
+    destruct al as [|a0 [|a1 al]]; [reflexivity|reflexivity|].
+    cbn [ls_term Integrators.ls_loop]. rewrite IH. reflexivity.
+  Qed.
+
+  Lemma bridge_ls dt al be ga u :
+    step_of Fx G Ginv (ls_step_term dt al be ga) u = Integrators.ls_step (vo := toVOps) Fx G Gi dt al be ga u.
+  Proof. unfold step_of, ls_step_term, Integrators.ls_step. rewrite bridge_ls_loop. reflexivity. Qed.
+
+  Lemma bridge_leapfrog dt alpha pc :
+    lf_step_of Fx G Ginv (leapfrog_term dt alpha) pc
+    = Integrators.leapfrog_step (vo := toVOps) Fx G Gi dt alpha pc.
+  Proof. destruct pc as [p c]. reflexivity. Qed.
+
+  (** imex_runge_kutta: the code fails (None) exactly when no term exists, and
+      otherwise computes the value of the term *)
+  Definition evo (u : V) (x : option (stepterm F)) : option V :=
+    option_map (fun t => eval Fx G Ginv t (env1 u)) x.
+
+  Lemma bridge_wsum u cs xs acc :
+    option_map (fun t => eval Fx G Ginv t (env1 u)) (tsum_skip cs xs acc)
+    = Integrators.wsum_skip (vo := toVOps) cs (map (evo u) xs) (eval Fx G Ginv acc (env1 u)).
+  Proof.
+    revert xs acc. induction cs as [|c cs IH]; intros xs acc; [reflexivity|].
+    destruct xs as [|x xs]; [reflexivity|].
+    cbn [tsum_skip Integrators.wsum_skip map].
+    change (Integrators.nz c) with (tnz c).
+    destruct (tnz c); [|apply IH].
+    destruct x as [t|]; [|reflexivity]. cbn [evo option_map]. rewrite IH. reflexivity.
+  Qed.
+
+  Lemma bridge_stages u dt b_ex b_im i rex rim fs gs :
+    option_map (fun p => (map (evo u) (fst p), map (evo u) (snd p)))
+               (imex_stage_terms dt b_ex b_im i rex rim fs gs)
+    = Integrators.imex_stages (vo := toVOps) Fx G Gi dt u b_ex b_im i rex rim (map (evo u) fs) (map (evo u) gs).
+  Proof.
+    revert i rim fs gs. induction rex as [|re rex IH]; intros i rim fs gs; [reflexivity|].
+    destruct rim as [|ri rim]; [reflexivity|].
+    cbn [imex_stage_terms Integrators.imex_stages].
+    rewrite <- !(bridge_wsum u).
+    destruct (tsum_skip re fs TZero) as [ex|]; [|reflexivity].
+    destruct (tsum_skip ri gs TZero) as [im|]; [|reflexivity].
+    cbn [option_map]. rewrite IH. rewrite !map_app. cbn [map].
+    change (Integrators.needed i rex b_ex) with (tneeded i rex b_ex).
+    change (Integrators.needed i rim b_im) with (tneeded i rim b_im).
+    destruct (tneeded i rex b_ex), (tneeded i rim b_im); reflexivity.
+  Qed.
+
+  Theorem bridge_imex dt a_ex a_im b_ex b_im u :
+    option_map (fun t => step_of Fx G Ginv t u) (imex_term dt a_ex a_im b_ex b_im)
+    = Integrators.imex_step (vo := toVOps) Fx G Gi dt a_ex a_im b_ex b_im u.
+  Proof.
+    unfold imex_term, Integrators.imex_step.
+    pose proof (bridge_stages u dt b_ex b_im 1 a_ex a_im [Some (TF U)] [Some (TG U)]) as H.
+    cbn [map evo option_map] in H. change (eval Fx G Ginv (TF U) (env1 u)) with (Fx u) in H.
+    change (eval Fx G Ginv (TG U) (env1 u)) with (G u) in H. rewrite <- H.
+    destruct (imex_stage_terms dt b_ex b_im 1 a_ex a_im [Some (TF U)] [Some (TG U)]) as [[fs gs]|]; [|reflexivity].
+    cbn [option_map fst snd]. rewrite <- !(bridge_wsum u).
+    destruct (tsum_skip b_ex fs TZero) as [ex|]; [|reflexivity].
+    destruct (tsum_skip b_im gs TZero) as [im|]; reflexivity.
+  Qed.
+End Bridge.
